@@ -375,6 +375,8 @@ func (fr *Frame) execInstr(in ssa.Instruction, st *State) *State {
 			if u.w.sh.nonNilField[c.key] {
 				if v := fr.val(x.Val); v.Sort == SLoc {
 					u.oblige(fr, "typeinv", x.Pos(), "value stored in "+c.key+" is non-nil", st.pc, Neq(v, NilLoc), false)
+				} else if v.Sort == SIface {
+					u.oblige(fr, "typeinv", x.Pos(), "value stored in "+c.key+" is non-nil", st.pc, Neq(ITag(v), IntLit(0)), false)
 				}
 			}
 			fr.storeValue(st, et, c.idx, &c, fr.val(x.Val), x.Addr)
